@@ -2,6 +2,7 @@ import Ts.Model.Tables
 import Ts.Spec.Bits
 import Ts.Spec.TableSpec
 import Ts.Lemmas.C17
+import Ts.Gen.Tables
 /-!
 # C17 — descriptor loops and typed descriptors
 
@@ -170,5 +171,24 @@ example : avcFields [0x64, 0x40, 0x28, 0xbf]
     = .ok ⟨100, false, true, false, false, false, false, 0, 40, true, false, true⟩ := by rfl
 example : specVariant 5 = "Registration" ∧ specVariant 60 = "Reserved" ∧ specVariant 200 = "UserPrivate" := by
   decide +kernel
+
+/-! ### tie to the `descriptor_enum!{ CoreDescriptors … }` rows regenerated from the source -/
+/-- variant / payload type the SOURCE's macro invocation selects for a tag -/
+def genRow (tag : Nat) : Option (Nat × Nat × String × String) :=
+  Ts.Gen.descVariants.find? (fun r => r.1 ≤ tag && tag ≤ r.2.1)
+def genVariant (tag : Nat) : String := match genRow tag with | some r => r.2.2.1 | none => "?"
+def genPayloadType (tag : Nat) : String := match genRow tag with | some r => r.2.2.2 | none => "?"
+
+/-- every tag 0..=255 is mapped by the source's table to the variant the model (and, by
+`tag_variant_table`, the documented table) gives -/
+theorem tie_variant_rows : ∀ tag : Fin 256, Ts.Tables.variantName tag.val = genVariant tag.val := by
+  decide +kernel
+/-- the typed payload constructors are attached to exactly the tags the model dispatches on
+(5 registration, 10 ISO 639 language, 14 maximum bitrate, 40 AVC video; everything else is the
+catch-all `UnknownDescriptor`) -/
+theorem tie_payload_types : ∀ tag : Fin 256, genPayloadType tag.val =
+    (if tag.val = 5 then "RegistrationDescriptor" else if tag.val = 10 then "Iso639LanguageDescriptor"
+     else if tag.val = 14 then "MaximumBitrateDescriptor" else if tag.val = 40 then "AvcVideoDescriptor"
+     else "UnknownDescriptor") := by decide +kernel
 
 end Ts.Props.C17
